@@ -248,6 +248,11 @@ func (c *Ctx) callersIndexFrom(f *Fn, idxParam types.Object, fileObj string) str
 			case *ast.Ident:
 				// an index parameter passed on (Scanner.japiError(msg, i) from readSchemaWithJsc: s.curIndex + offset)
 				ok = true
+			case *ast.BasicLit:
+			}
+			// the constant 0: the beginning of the file, an index every file has
+			if k, isK := constInt(pk, a); isK && k == 0 {
+				ok = true
 			}
 			if !ok {
 				bad = fmt.Sprintf("%s passes %s", g.Name(), exprString(call.Args[ii]))
@@ -275,12 +280,37 @@ func (c *Ctx) rulePhaseConstructor() {
 		n++
 		pk := f.Pkg
 		bad := ""
+		if f.Obj == jerrFn {
+			continue // the wrapper itself: its callers are judged
+		}
 		for _, t := range []*types.Func{newErr, jerrFn} {
 			if t == nil {
 				continue
 			}
-			if calls := callsIn(pk, f.Decl.Body, t); len(calls) > 0 {
-				bad = t.Name() + " at " + c.pos(calls[0].Pos())
+			for _, call := range callsIn(pk, f.Decl.Body, t) {
+				// a document without any directive has no directive to carry the error: the call is reached only over
+				// the true edge of `len(<directive list>) == 0`
+				noDirective := buildCFG(f.Decl.Body).establishedAt(call, func(cond ast.Expr, trueEdge bool) bool {
+					be, ok := ast.Unparen(cond).(*ast.BinaryExpr)
+					if !ok {
+						return false
+					}
+					lc, ok := ast.Unparen(be.X).(*ast.CallExpr)
+					if !ok || len(lc.Args) != 1 || exprString(lc.Fun) != "len" {
+						return false
+					}
+					fld := fieldSel(pk, lc.Args[0])
+					if fld == nil || !strings.Contains(types.TypeString(fld.Type(), nil), "directive.Directive") {
+						return false
+					}
+					k, isK := constInt(pk, be.Y)
+					return isK && k == 0 && ((be.Op == token.EQL && trueEdge) || (be.Op == token.NEQ && !trueEdge) || (be.Op == token.GTR && !trueEdge))
+				}, nil)
+				if noDirective {
+					r.Ok("C07-PHASE-CONSTRUCTOR", f.Name()+" | no directive", "the error is about a document without any directive: there is none to locate it on; it is placed at the beginning of the root file", c.pos(call.Pos()))
+					continue
+				}
+				bad = t.Name() + " at " + c.pos(call.Pos())
 			}
 		}
 		if bad != "" {
